@@ -3,7 +3,7 @@ import Chewing.Proofs.TrieBufFuzzy
 /-!
 # TrieFuzzyOrder — a prefix lookup through `entries()` sees the persisted phrases in FILE order (C09, F36)
 
-Since fix 097161a `TrieBuf` answers a prefix lookup from `entries_iter()`, whose persisted part is the REAL
+Since fix c3d9fb2 `TrieBuf` answers a prefix lookup from `entries_iter()`, whose persisted part is the REAL
 `Trie::entries()` — a depth-first iterator that lists the leaves of the file with every maximal chain "each
 key a prefix of the next" of the sorted key list reversed (`TrieLink.build_entries_exact`).  C09's model
 lists the persisted candidates in file order instead (`Trie.entries`).  The two agree on what a prefix
